@@ -141,7 +141,8 @@ def r2_r3(F, rep):
             # buffer half: &msg_data[0] for gradients, &msg_data[samp_start] for counts
             half = ""
             if X.callee_name(c) in ("raw_data_in", "raw_data_out"):
-                half = "second-half" if "samp_start" in a0 else "first-half"
+                # &buffer[0] is the gradient half; &buffer[<offset of the counts>] the other one
+                half = "first-half" if ("[0]" in a0 or ", 0)" in a0) else "second-half"
                 a0 = "buffer"
             seq[kind].append((X.callee_name(c), norm, a0, half))
         gs_, ss_ = seq["gradients"], seq["samples"]
